@@ -197,34 +197,36 @@ class Ctx:
         return random.Random("%d/%s/%s" % (self.seed, self.prop, name))
 
     # -------------------------------------------------------------- Coq build
-    def hygiene(self):
-        """No axioms, admits or disabled checks anywhere in the development."""
+    def hygiene(self, targets=None):
+        """No axioms, admits or disabled checks in the development the targets depend on (their Require-closure;
+        the whole tree when no target is given)."""
         pat = re.compile(r"\b(Admitted|admit|Axiom|Axioms|Parameter|Parameters|Conjecture|Hypothesis|"
                          r"Unset\s+Guard|bypass_check|type-in-type|Admit\s+Obligations)\b")
         bad = []
-        for d, _, fs in os.walk(COQ):
-            for f in fs:
-                if f.endswith(".v"):
-                    p = os.path.join(d, f)
-                    txt = re.sub(r"\(\*.*?\*\)", "", open(p).read(), flags=re.S)
-                    insec = 0
-                    for i, line in enumerate(txt.split("\n"), 1):
-                        if re.match(r"\s*Section\b", line):
-                            insec += 1
-                        if re.match(r"\s*End\b", line) and insec:
-                            insec -= 1
-                        m = pat.search(line)
-                        if m:
-                            if m.group(1) in ("Hypothesis",) and insec:
-                                continue
-                            bad.append("%s:%d:%s" % (os.path.relpath(p, COQ), i, m.group(1)))
-                        if re.match(r"\s*Variables?\b", line) and not insec:
-                            bad.append("%s:%d:Variable outside section" % (os.path.relpath(p, COQ), i))
+        if targets:
+            files = [os.path.join(COQ, f) for f in coq_closure(targets)]
+        else:
+            files = [os.path.join(d, f) for d, _, fs in os.walk(COQ) for f in fs if f.endswith(".v")]
+        for p in files:
+            txt = re.sub(r"\(\*.*?\*\)", "", open(p).read(), flags=re.S)
+            insec = 0
+            for i, line in enumerate(txt.split("\n"), 1):
+                if re.match(r"\s*Section\b", line):
+                    insec += 1
+                if re.match(r"\s*End\b", line) and insec:
+                    insec -= 1
+                m = pat.search(line)
+                if m:
+                    if m.group(1) in ("Hypothesis",) and insec:
+                        continue
+                    bad.append("%s:%d:%s" % (os.path.relpath(p, COQ), i, m.group(1)))
+                if re.match(r"\s*Variables?\b", line) and not insec:
+                    bad.append("%s:%d:Variable outside section" % (os.path.relpath(p, COQ), i))
         return bad
 
     def build(self, targets, timeout=1500):
         """Full .vo build of the closure of `targets` (paths relative to coq/)."""
-        bad = self.hygiene()
+        bad = self.hygiene(targets)
         if bad:
             self.broken.append("hygiene: " + "; ".join(bad[:5]))
         os.makedirs(BUILD, exist_ok=True)
@@ -376,6 +378,36 @@ class Ctx:
 
     def note(self, s):
         self.notes.append(s)
+
+    def modelled(self, specs):
+        """Record which parts of the implementation the Gallina model mirrors: `specs` are "module:qualname" strings
+        (functions, methods, classes, module-level names).  For each, the evidence gets file, line range and a hash of
+        the current source text, so a reader can see exactly what is modelled (rather than verified) and whether the
+        text changed since the reference run.  Informational only: the correspondence is the judge of fidelity."""
+        import importlib
+        import inspect
+        out = []
+        for spec in specs:
+            mod, _, qual = spec.partition(":")
+            rec = {"object": spec}
+            try:
+                obj = importlib.import_module(mod)
+                for part in [x for x in qual.split(".") if x]:
+                    obj = getattr(obj, part)
+                if isinstance(obj, property):
+                    obj = obj.fget
+                obj = inspect.unwrap(obj) if callable(obj) else obj
+                try:
+                    src, start = inspect.getsourcelines(obj)
+                    rec.update({"file": os.path.relpath(inspect.getsourcefile(obj), REPO), "lines": [start, start + len(src) - 1],
+                                "sha1": hashlib.sha1("".join(src).encode()).hexdigest()[:12]})
+                except (TypeError, OSError):
+                    rec.update({"value_sha1": hashlib.sha1(repr(obj).encode()).hexdigest()[:12]})
+            except Exception as e:  # noqa
+                rec["error"] = "%s: %s" % (type(e).__name__, e)
+                self.broken.append("modelled object %s no longer exists (%s)" % (spec, type(e).__name__))
+            out.append(rec)
+        self.extra.setdefault("modelled_source", []).extend(out)
 
     def finish(self):
         os.makedirs(os.path.join(ROOT, "replays"), exist_ok=True)
